@@ -307,3 +307,72 @@ def settle(ctx):
     if ctx.broken and not any(not ni for _, ni, _ in ctx.violations):
         ctx.violation("proof obligation or model/code correspondence no longer checks; the violation search "
                       "found no concrete failing input", {"broken": ctx.broken}, no_input=True)
+
+
+# ---------------------------------------------------------------------------------------------
+# in-process macro driver (cargo test -p ts-rs-macros --lib verif_driver)
+# ---------------------------------------------------------------------------------------------
+def _esc(s):
+    return s.replace("\\", "\\\\").replace("\t", "\\t").replace("\n", "\\n").replace("\r", "\\r")
+
+
+def _unesc(s):
+    out, i = [], 0
+    while i < len(s):
+        c = s[i]
+        if c == "\\" and i + 1 < len(s):
+            n = s[i + 1]
+            out.append({"t": "\t", "n": "\n", "r": "\r", "\\": "\\"}.get(n, "\\" + n))
+            i += 2
+        else:
+            out.append(c)
+            i += 1
+    return "".join(out)
+
+
+def run_macro(ctx, cases, features=("serde-compat",), tag="default", timeout=3000):
+    """cases: list of lists of strings (op, args...). Returns list of dicts {"ok":..}|{"err":..}|{"synerr":..}|{"panic":True},
+    or None if the macros crate does not build with hooks on."""
+    wd = os.path.join(SCRATCH, f"macro-{ctx.pid}-{tag}")
+    os.makedirs(wd, exist_ok=True)
+    inp, outp = os.path.join(wd, "in.tsv"), os.path.join(wd, "out.tsv")
+    with open(inp, "w", encoding="utf-8") as f:
+        for c in cases:
+            f.write("\t".join(_esc(x) for x in c) + "\n")
+    if os.path.exists(outp):
+        os.remove(outp)
+    env = cargo_env()
+    env["CARGO_TARGET_DIR"] = os.path.join(BUILD, "macrodrv-" + ("_".join(sorted(features)) or "nofeat"))
+    env["TS_RS_VERIF_IN"], env["TS_RS_VERIF_OUT"] = inp, outp
+    cmd = ["cargo", "test", "--offline", "--quiet", "-p", "ts-rs-macros", "--no-default-features", "--lib"]
+    if features:
+        cmd += ["--features", ",".join(features)]
+    cmd += ["verif_driver"]
+    rc, out = sh(cmd, cwd=REPO, env=env, timeout=timeout)
+    if rc != 0 or not os.path.exists(outp):
+        ctx.log("macro driver failed:\n" + out[-3000:])
+        ctx.broken.append("macro driver does not build/run against /repo: " + out.strip().split("\n")[-1][:300])
+        return None
+    res = []
+    for line in open(outp, encoding="utf-8").read().split("\n"):
+        if line == "":
+            continue
+        parts = line.split("\t")
+        if parts[0] == "panic":
+            res.append({"panic": True})
+        else:
+            res.append({parts[0]: _unesc(parts[1]) if len(parts) > 1 else ""})
+    if len(res) != len(cases):
+        raise RuntimeError(f"macro driver answered {len(res)} of {len(cases)}")
+    return res
+
+
+def build_macrodrv(ctx):
+    return run_macro(ctx, [["inflect_field", "Snake", "warmUp"]], tag="warm")
+
+
+def char_table(binary, alphabet):
+    """Ask Rust's own char methods about the working alphabet; returns the set_chars line for the Lean driver."""
+    cps = sorted({ord(c) for c in alphabet})
+    rows = run_real(binary, [{"op": "chars", "cps": cps}])[0]["ok"]
+    return {"op": "set_chars", "table": rows}
